@@ -497,6 +497,25 @@ def classify_ratio(match, lp_cur, lp_prev, th_cur, th_prev, bound):
     return None
 
 
+def ratio_matches(got, x):
+    if x <= 1e-300:
+        return 0.0 <= got <= 1e-300
+    return abs(got - x) <= 1e-9 * x
+
+
+def record_ratio(bsl, sink):
+    """instrument the constructed object: every value _get_mh_ratio returns is appended to sink"""
+    orig = getattr(bsl, '_get_mh_ratio', None)
+    if orig is None:
+        return
+
+    def wrapped(*a, **kw):
+        r = orig(*a, **kw)
+        sink(_scalar(r))
+        return r
+    bsl._get_mh_ratio = wrapped
+
+
 def make_bsl(cfg, likelihood=None, n_sim_round=2, batch_size=2, p=1):
     import elfi
     m = build_model(p, cfg.get('prior', 'uniform'))
@@ -535,9 +554,7 @@ def _ratio_sub(bsl, bound, th_prev, th_cur, lp_prev, lp_cur):
     ref = R.mh_ratio_ref(lp_cur, lp_prev, th_cur, th_prev, bound)
 
     def match(x):
-        if x <= 1e-300:
-            return 0.0 <= got <= 1e-300
-        return abs(got - x) <= 1e-9 * x
+        return ratio_matches(got, x)
     if match(ref):
         return None
     sig = classify_ratio(match, lp_cur, lp_prev, th_cur, th_prev, bound) or 'C20:mh-ratio:mismatch'
@@ -613,6 +630,7 @@ def _process_sub(cfg, bsl, bound, prior, th_prev, th_cur, ll_prev, ll_cur, finit
     state_box['asked'] = 0
     stream = bsl.random_state
     stream.us = []
+    state_box['ratios'] = []
     r = _call(bsl._process_simulated)
     if r[0] == 'exc':
         return r[1], {'exception': r[2]}
@@ -623,6 +641,11 @@ def _process_sub(cfg, bsl, bound, prior, th_prev, th_cur, ll_prev, ll_cur, finit
         pass
     ratio = R.mh_ratio_ref(ll_eff + lp_cur, ll_prev + lp_prev, [th_cur], [th_prev], bound)
     want = _judge_decision(stream.us, ratio)
+    for got_ratio in state_box['ratios']:
+        if not ratio_matches(got_ratio, ratio):
+            sig = classify_ratio(lambda x: ratio_matches(got_ratio, x), ll_eff + lp_cur, ll_prev + lp_prev,
+                                 [th_cur], [th_prev], bound) or 'C20:mh-ratio:mismatch'
+            return sig, {'got': got_ratio, 'expected': ratio}
     st = bsl.state
     row = (float(st['params'][1, 0]), float(st['logprior'][1]), float(st['logposterior'][1]))
     acc_row = (th_cur, lp_cur, ll_eff + lp_cur)
@@ -642,11 +665,7 @@ def _process_sub(cfg, bsl, bound, prior, th_prev, th_cur, ll_prev, ll_cur, finit
     if want == 'either' or (is_acc and is_rej):
         return None
     if (want == 'accept') != is_acc:
-        def match(x):
-            return _judge_decision(stream.us, x) == ('accept' if is_acc else 'reject')
-        sig = classify_ratio(match, ll_eff + lp_cur, ll_prev + lp_prev, [th_cur], [th_prev], bound) \
-            or 'C20:mh-step:acceptance-differs-from-u-below-min-1-ratio'
-        return sig, dict(info, expected=want)
+        return 'C20:mh-step:acceptance-differs-from-u-below-min-1-ratio', dict(info, expected=want)
     return 'acc' if is_acc else 'rej'
 
 
@@ -662,6 +681,7 @@ def run_process(case):
     _, bsl, _ = make_bsl({'prior': prior}, likelihood=lik)
     bsl.logit_transform_bound = np.array(bound) if bound is not None else None
     bsl.random_state = RecordingStream(case['useed'])
+    record_ratio(bsl, lambda v: box['ratios'].append(v))
     if 'sub' in case:
         subs = [tuple(case['sub'])]
     else:
@@ -750,6 +770,7 @@ def make_body(cfg):
         models.reset_calls()
         m, bsl, names = make_bsl(cfg, likelihood=env.likelihood, n_sim_round=nsr, batch_size=bs)
         bsl.random_state = env
+        record_ratio(bsl, lambda v: env.events.append(('ratio', v)))
         obs = {'events': env.events, 'init_error': None}
         if cfg['drive'] == 'sample':
             models.native_client()
@@ -882,6 +903,15 @@ def judge_execution(cfg, obs):
             ll = -math.inf
         lp = logprior_ref(prop, prior)
         ratio = R.mh_ratio_ref(ll + lp, lpo[-1], [prop], [prev], bound)
+        e = nxt('ratio')
+        while e is not None:
+            got_ratio = e[1]
+            if not ratio_matches(got_ratio, ratio):
+                sig = classify_ratio(lambda x: ratio_matches(got_ratio, x), ll + lp, lpo[-1], [prop], [prev], bound) \
+                    or 'C20:mh-ratio:mismatch'
+                return sig, {'slot': n, 'proposal': prop, 'previous': prev, 'got': got_ratio, 'expected': ratio,
+                             'trace': trace}
+            e = nxt('ratio')
         us = []
         e = nxt('u')
         while e is not None:
@@ -897,10 +927,7 @@ def judge_execution(cfg, obs):
             is_acc = abs(got_theta - prop) <= 1e-9 * max(1.0, abs(prop))
             is_rej = abs(got_theta - prev) <= 1e-9 * max(1.0, abs(prev))
             if (is_acc != is_rej) and (want == 'accept') != is_acc:
-                def match(x):
-                    return _judge_decision(us, x) == ('accept' if is_acc else 'reject')
-                sig = classify_ratio(match, ll + lp, lpo[-1], [prop], [prev], bound) \
-                    or 'C20:mh-step:acceptance-differs-from-u-below-min-1-ratio'
+                sig = 'C20:mh-step:acceptance-differs-from-u-below-min-1-ratio'
                 return sig, {'slot': n, 'proposal': prop, 'previous': prev, 'ratio': ratio, 'u': us, 'expected': want,
                              'loglik': ll, 'trace': trace}
         if want == 'accept':
